@@ -130,6 +130,7 @@ type ClientSpec struct {
 	V3PingMs    int         `json:"v3ping,omitempty"`
 	StopAtMs    int         `json:"stopAt,omitempty"`  // >0: complete silence from then on (partition)
 	CloseAtMs   int         `json:"closeAt,omitempty"` // >0: orderly client close (close packet / close frame)
+	CloseTrail  int         `json:"closeTrail,omitempty"` // polling: that many message packets follow the close packet in the same payload
 	Faults      []FaultSpec `json:"faults,omitempty"`
 	AcceptEnc   string      `json:"ae,omitempty"`
 	Origin      string      `json:"origin,omitempty"`
